@@ -44,7 +44,10 @@ def run(unit_path, threads=16, extra=None, timeout=1800, cache_dir=None, cache_k
     # -V spinoff-all: one solver instance per function, so the proof of one function cannot be perturbed by
     # solver state left behind by another (a change in function A then cannot flip B to rlimit or back)
     cmd = ['verus', unit_path, '--output-json', '--time', '--num-threads', str(threads), '--error-format=json',
-           '-V', 'spinoff-all']
+           '-V', 'spinoff-all',
+           # report every failing clause of a failing function (the default stops after two): a property whose clause
+           # fails must hear about it even if a clause of another property fails in the same function
+           '--multiple-errors', '16']
     if extra:
         cmd += extra
     text = open(unit_path).read()
